@@ -40,7 +40,7 @@ def concrete_run(exe, case, valfile, tol=None, timeout=120):
 
 
 def run_phase(chk, name, harness, cases, id_prefixes, prec="d", vendor=False, idx64=False, asan=False, budget_s=240, qtimeout_ms=10000,
-              defs=(), bounds="", env=None, crash_is_violation=False, event_violations=(), validate_samples=4, tol=None, note_check=None,
+              defs=(), bounds="", env=None, key_extra=None, crash_is_violation=False, event_violations=(), validate_samples=4, tol=None, note_check=None,
               monitor_ids=()):
     """id_prefixes: assertion-id prefixes that belong to the property being checked.
     monitor_ids: path-record counters ('global_stores', 'ws_viol', 'heap_errors') that are violations when non-zero."""
@@ -80,6 +80,7 @@ def run_phase(chk, name, harness, cases, id_prefixes, prec="d", vendor=False, id
         seen.add(k)
         model = v.get("model") or {}
         key = {"engine": "E2", "harness": os.path.basename(harness), "prec": prec, "assert_id": vid, "case": " ".join(map(str, v["case"])), "vendor": int(vendor), "idx64": int(idx64)}
+        if key_extra: key.update(key_extra(v["case"]))
         confirmed = None; how = []
         if nrep < 12:
             nrep += 1
@@ -159,6 +160,7 @@ def run_phase(chk, name, harness, cases, id_prefixes, prec="d", vendor=False, id
           "longest_path_condition": st["maxpc"], "events": st["events"], "crashes": st["crashes"], "exhaustive": st["pending"] == 0 and st["timeouts"] == 0,
           "functions_encoded": len(table.get("functions", [])), "functions_sample": table.get("functions", [])[:12], "fp_ops_rewritten": table.get("rewritten"), "selects_merged": table.get("select_merged"),
           "reach_blocks_total": reach_total, "reach_blocks_hit": reached, "validated": validated, "validation_failures": vfail[:3], "wall_s": round(time.time() - t0, 1),
+          "heaviest_cases": [{"case": list(c_), "paths": ex.case_paths.get(c_, 0), "cpu_s": round(t_, 1)} for c_, t_ in sorted(ex.case_sec.items(), key=lambda kv: -kv[1])[:5]],
           "by_id": {i: v for i, v in st["by_id"].items() if mine(i)}, "notes_sum": st["notes_sum"], "fp_layer": "X (exact reals) + T (term identity)"}
     chk.phases.append(ph)
     for s in ex.samples[:2]: chk.samples.append({"phase": name, **s})
